@@ -10,11 +10,13 @@ import (
 	"encoding/json"
 	"errors"
 	"fmt"
+	"io"
 	"reflect"
 	"sort"
 	"strings"
 	"sync"
 	"testing"
+	"testing/iotest"
 	"time"
 
 	"github.com/fxamacker/cbor/v2"
@@ -50,7 +52,30 @@ type Case struct {
 	ExpirySecs int64              `json:"expirySecs"`
 	Agent      string             `json:"agent"`
 	Identity   string             `json:"identity"`
+	SignReader string             `json:"signReader"` // how the blob is presented to SignBlob / VerifyBlob
+	VerReader  string             `json:"verifyReader"`
 }
+
+// reader wraps blob bytes in readers with different (all legal) io.Reader behaviours.
+func reader(kind string, b []byte) io.Reader {
+	switch kind {
+	case "data-with-eof": // returns the final data together with io.EOF
+		return iotest.DataErrReader(bytes.NewReader(b))
+	case "one-byte":
+		return iotest.OneByteReader(bytes.NewReader(b))
+	case "half":
+		return iotest.HalfReader(bytes.NewReader(b))
+	case "buffer":
+		return bytes.NewBuffer(append([]byte{}, b...))
+	case "no-writer-to": // hides WriterTo/ReaderFrom fast paths
+		return struct{ io.Reader }{bytes.NewReader(b)}
+	case "data-with-eof-one-byte":
+		return iotest.DataErrReader(iotest.OneByteReader(bytes.NewReader(b)))
+	}
+	return bytes.NewReader(b)
+}
+
+var readerKinds = []string{"bytes", "bytes", "data-with-eof", "one-byte", "half", "buffer", "no-writer-to", "data-with-eof-one-byte"}
 
 // ---- honest in-process plugin ----
 
@@ -319,7 +344,7 @@ func roundTrip(c *Case) (string, string) {
 	} else {
 		blob := blobBytes(c.BlobLen, c.BlobSeed)
 		var err error
-		env, _, err = notation.SignBlob(ctx, sgn, bytes.NewReader(blob), notation.SignBlobOptions{SignerSignOptions: sopts, ContentMediaType: c.MediaType, UserMetadata: c.Metadata})
+		env, _, err = notation.SignBlob(ctx, sgn, reader(c.SignReader, blob), notation.SignBlobOptions{SignerSignOptions: sopts, ContentMediaType: c.MediaType, UserMetadata: c.Metadata})
 		if err != nil {
 			return "C07:sign-failed:" + site, fmt.Sprintf("SignBlob failed for a legal request: %v", err)
 		}
@@ -328,7 +353,7 @@ func roundTrip(c *Case) (string, string) {
 		if err != nil {
 			return "harness", "verifier: " + err.Error()
 		}
-		got, out, err := notation.VerifyBlob(ctx, v, bytes.NewReader(blob), env, notation.VerifyBlobOptions{
+		got, out, err := notation.VerifyBlob(ctx, v, reader(c.VerReader, blob), env, notation.VerifyBlobOptions{
 			BlobVerifierVerifyOptions: notation.BlobVerifierVerifyOptions{SignatureMediaType: c.Format, UserMetadata: c.Metadata}, ContentMediaType: c.MediaType})
 		if err != nil {
 			return "C07:verify-failed:" + site, fmt.Sprintf("what the library signed does not verify: %v", err)
@@ -452,6 +477,11 @@ func drawCase(rt *rapid.T) *Case {
 			c.BlobLen = 1<<20 + 1
 		}
 		c.BlobSeed = byte(rapid.IntRange(0, 255).Draw(rt, "blobSeed"))
+		c.SignReader = rp.Pick(rt, "signReader", readerKinds...)
+		c.VerReader = rp.Pick(rt, "verifyReader", readerKinds...)
+		if c.BlobLen > 100000 && (strings.Contains(c.SignReader, "one-byte") || strings.Contains(c.VerReader, "one-byte")) {
+			c.SignReader, c.VerReader = "data-with-eof", "half" // one-byte readers on a megabyte are only slow
+		}
 		c.MediaType = rp.Pick(rt, "mime", "application/octet-stream", "text/plain; charset=utf-8", "Application/JSON", "application/vnd.example+json;version=1", "x/y")
 	}
 	return c
@@ -485,7 +515,10 @@ func TestC07_RoundTrip(t *testing.T) {
 		if c.Kind == "oci" && c.Desc.Size > 1<<53 {
 			cl = append(cl, "size>2^53")
 		}
-		rec.Case(cl, true, stats.Fingerprint(c.KeySpec, c.Format, c.Signer, c.Kind, fmt.Sprintf("%+v", c.Desc), c.BlobLen, c.BlobSeed, c.MediaType, strings.Join(mk, ";"), c.ExpirySecs, c.Identity), func() any { return c })
+		if c.Kind == "blob" {
+			cl = append(cl, "sign-reader="+c.SignReader, "verify-reader="+c.VerReader)
+		}
+		rec.Case(cl, true, stats.Fingerprint(c.KeySpec, c.Format, c.Signer, c.Kind, fmt.Sprintf("%+v", c.Desc), c.BlobLen, c.BlobSeed, c.MediaType, strings.Join(mk, ";"), c.ExpirySecs, c.Identity, c.SignReader, c.VerReader), func() any { return c })
 		key, msg := roundTrip(c)
 		if key == "harness" {
 			rt.Fatalf("harness: %s", msg)
